@@ -164,14 +164,14 @@ Lemma sieve_step_all s cl : sieve_inv s ->
   sieve_inv (fst (sieve_step s cl)) /\
   let '(s', o) := sieve_step s cl in step_ok admit_full (sieve_tr s) cl o (sieve_tr s').
 Proof.
-  unfold sieve_inv. intros H. destruct cl as [k c|k c|k|n|]; cbn [sieve_step fst step_ok].
+  unfold sieve_inv. intros H. destruct cl as [k c|k c|k|n|]; cbn [sieve_step fst step_ok step_okG access_keep].
   - unfold sieve_tr. cbn [sv_r]. rewrite etr_eset. split; [exact H | apply Permutation_refl].
   - rewrite sieve_admit_tr. split; [apply snoc_rm_NoDup; exact H|].
     unfold admit_full. apply Permutation_sym, Permutation_cons_append.
   - unfold sieve_tr, sieve_remove. cbn [sv_r]. rewrite etr_erm.
     split; [apply rm_NoDup; exact H | apply Permutation_refl].
   - destruct (evict_loop sieve_evict_one (length (sv_r s)) n 0 s []) as [[s' vs] f] eqn:E.
-    cbn [fst step_ok].
+    cbn [fst step_ok step_okG access_keep].
     assert (Hlen : length (sv_r s) = length (sieve_tr s)) by (unfold sieve_tr, etr; rewrite map_length; reflexivity).
     rewrite Hlen in E.
     destruct (evict_loop_ok sieve_evict_one sieve_tr sieve_one_some sieve_one_none _ _ _ _ _ H E) as [A B].
@@ -264,17 +264,42 @@ Proof.
   cbn [keys map fst]. constructor; [apply lookup_None; exact Hl | exact H].
 Qed.
 
+(* re-admission of a tracked key: its cost is replaced in place *)
+Lemma esetcost_id k c l : ~ In k (keys (etr l)) -> esetcost k c l = l.
+Proof.
+  induction l as [|[[k' c'] f'] t IH]; cbn [esetcost etr map ekc keys fst ekey]; intros H; [reflexivity|].
+  destruct (N.eqb_spec k k') as [->|Hn]; [exfalso; apply H; left; reflexivity|].
+  f_equal. apply IH. intros Hi. apply H. right. exact Hi.
+Qed.
+
+Lemma etr_esetcost k c l c0 :
+  NoDup (keys (etr l)) -> lookup k (etr l) = Some c0 ->
+  Permutation (etr (esetcost k c l)) ((k, c) :: rm k (etr l)).
+Proof.
+  induction l as [|[[k' c'] f'] t IH];
+    cbn [esetcost etr map ekc keys fst ekey lookup rm eflag snd]; intros Hnd Hl; [discriminate|].
+  inversion Hnd as [|? ? Hni Hnd']; subst.
+  destruct (N.eqb_spec k k') as [->|Hn].
+  - cbn [etr map ekc fst]. fold (etr (esetcost k' c t)). fold (etr t).
+    rewrite (esetcost_id k' c t Hni), (rm_id k' (etr t) Hni). apply Permutation_refl.
+  - cbn [etr map ekc fst]. fold (etr (esetcost k c t)). fold (etr t).
+    eapply Permutation_trans; [|apply perm_swap]. constructor. apply IH; assumption.
+Qed.
+
 Lemma clock_step_all s cl : clock_inv s ->
   clock_inv (fst (clock_step s cl)) /\
-  let '(s', o) := clock_step s cl in step_ok admit_keep_old (clock_tr s) cl o (clock_tr s').
+  let '(s', o) := clock_step s cl in step_ok admit_full (clock_tr s) cl o (clock_tr s').
 Proof.
-  unfold clock_inv. intros H. destruct cl as [k c|k c|k|n|]; cbn [clock_step fst step_ok].
+  unfold clock_inv. intros H. destruct cl as [k c|k c|k|n|]; cbn [clock_step fst step_ok step_okG access_keep].
   - unfold clock_tr. cbn [ck_o]. rewrite etr_eset. split; [exact H | apply Permutation_refl].
-  - unfold clock_admit, admit_keep_old. rewrite ehas_lookup. fold (clock_tr s).
+  - unfold clock_admit, admit_full. rewrite ehas_lookup. fold (clock_tr s).
     destruct (lookup k (clock_tr s)) eqn:E.
-    + split; [exact H | apply Permutation_refl].
+    + unfold clock_tr at 1 2. cbn [ck_o]. fold (clock_tr s).
+      pose proof (etr_esetcost k c (ck_o s) n H E) as HP. fold (clock_tr s) in HP.
+      split; [|exact HP]. eapply perm_NoDup_keys; [exact HP | apply NoDup_cons_rm; exact H].
     + unfold clock_tr at 1 2. cbn [ck_o]. rewrite etr_app. cbn [etr map ekc fst].
       fold (clock_tr s). split; [apply snoc_NoDup; assumption|].
+      rewrite rm_id by (apply lookup_None; exact E).
       apply Permutation_sym, Permutation_cons_append.
   - unfold clock_remove. destruct (eindex k (ck_o s)) eqn:E.
     + unfold clock_tr. cbn [ck_o]. rewrite etr_erm.
@@ -282,7 +307,7 @@ Proof.
     + split; [exact H|]. apply eindex_lookup in E. fold (clock_tr s) in E.
       rewrite rm_id; [apply Permutation_refl | apply lookup_None; exact E].
   - destruct (evict_loop clock_evict_one (length (ck_o s)) n 0 s []) as [[s' vs] f] eqn:E.
-    cbn [fst step_ok].
+    cbn [fst step_ok step_okG access_keep].
     assert (Hlen : length (ck_o s) = length (clock_tr s)) by (unfold clock_tr, etr; rewrite map_length; reflexivity).
     rewrite Hlen in E.
     destruct (evict_loop_ok clock_evict_one clock_tr clock_one_some clock_one_none _ _ _ _ _ H E) as [A B].
@@ -290,18 +315,11 @@ Proof.
   - split; [constructor | reflexivity].
 Qed.
 
-Theorem clock_contract_keep_old : contract admit_keep_old ClockP.
+Theorem clock_contract : contract admit_full ClockP.
 Proof.
-  apply (contract_lift admit_keep_old ClockP clock_inv).
+  apply (contract_lift admit_full ClockP clock_inv).
   - constructor.
   - intros s cl H. apply clock_step_all. exact H.
   - intros s H. exact H.
   - intros s cl H. apply (clock_step_all s cl H).
-Qed.
-
-Theorem clock_readmit_refuted : ~ contract admit_full ClockP.
-Proof.
-  intros H. specialize (H [Admit 1 1]). cbv zeta in H. destruct H as [_ H].
-  specialize (H (Admit 1 50)). vm_compute in H.
-  apply Permutation_length_1_inv in H. discriminate.
 Qed.
